@@ -143,6 +143,48 @@ func checkC13(P *Prog, r *Result) {
 		r.undecided("C13/twin-constructors", "SchemaCtx constructors", "-", "fewer than two context constructors found")
 	}
 
+	// ---- coercion of an already correctly typed value is the identity (the part of it visible in the table) ----
+	ident := map[string]string{
+		"zog/conf.DefaultCoercers.Int(func)": "int", "zog/conf.DefaultCoercers.Float64(func)": "float64",
+		"zog/conf.DefaultCoercers.Bool(func)": "bool", "zog/conf.DefaultCoercers.String(func)": "string",
+		"zog/conf.TimeCoercerFactory$1": "time.Time",
+	}
+	for _, key := range sortedKeys(ident) {
+		fn := P.fn(key)
+		if fn == nil {
+			r.undecided("C13/coercion-identity", key, "-", "coercer not found")
+			continue
+		}
+		rows, probs := P.coercionRows(fn)
+		T := ident[key]
+		want := T + " |  ⇒ val.(" + T + ")"
+		found := false
+		var bad []string
+		for _, row := range rows {
+			if row == want {
+				found = true
+			}
+			// sized numeric inputs must be pure conversion chains (no arithmetic, no detour through another kind)
+			if (T == "int" || T == "float64") && (strings.HasPrefix(row, "int64 |") || strings.HasPrefix(row, "int32 |") || strings.HasPrefix(row, "float32 |")) {
+				res := row[strings.LastIndex(row, "⇒ ")+len("⇒ "):]
+				if !isPureConvertChain(res) {
+					bad = append(bad, row)
+				}
+			}
+		}
+		switch {
+		case len(probs) > 0:
+			r.undecided("C13/coercion-identity", key, P.pos(fn.Pos()), strings.Join(probs, "; "))
+		case !found:
+			r.bad("C13/coercion-identity", key, P.pos(fn.Pos()), "a value that already has the destination type is not passed through unchanged by the Parse-side coercer (expected row: "+want+"): Parse and Validate disagree on correctly typed values", rows...)
+		case len(bad) > 0:
+			r.bad("C13/coercion-identity", key, P.pos(fn.Pos()), "a sized numeric input is not coerced by a plain conversion: "+strings.Join(bad, "; "))
+		default:
+			r.ok("C13/coercion-identity", key, P.pos(fn.Pos()), want)
+		}
+	}
+	r.floor("C13/coercion-identity", 5)
+
 	// ---- twin-args ----
 	if len(R.Pipelines) == 2 {
 		for _, k := range sortedKeys(R.Process) {
@@ -292,4 +334,27 @@ func (P *Prog) compareTwins(r *Result, rule, name string, pf, vf *ssa.Function) 
 		facts = append(facts, "only in Validate: "+s)
 	}
 	r.bad(rule, name, P.pos(vf.Pos()), fmt.Sprintf("the Parse and Validate twins do not have the same phase structure (%d sequence(s) only in Parse, %d only in Validate): a schema can behave differently when moved between the two modes", len(onlyP), len(onlyV)), facts...)
+}
+
+// isPureConvertChain: T1(T2(...val.(T)...)) and nothing else.
+func isPureConvertChain(s string) bool {
+	for {
+		i := strings.IndexByte(s, '(')
+		if i <= 0 || !strings.HasSuffix(s, ")") {
+			return false
+		}
+		head := s[:i]
+		if head == "val." {
+			return true
+		}
+		if strings.HasPrefix(s, "val.(") {
+			return true
+		}
+		switch head {
+		case "int", "int8", "int16", "int32", "int64", "float32", "float64", "uint", "uint8", "uint16", "uint32", "uint64":
+			s = s[i+1 : len(s)-1]
+		default:
+			return false
+		}
+	}
 }
